@@ -52,16 +52,18 @@ Proof. exact read_ptr_complete. Qed.
 (* Whole trees: the generic walker over the Go-faithful accessors (the shape of every
    recursive consumer: Equal, Canonicalize, copy, text) computes exactly the lenient
    specification tree and consumes exactly [spec_cost], for every message, caps and fuel,
-   when the depth limit exceeds the fuel and the budget covers the cost.  So a property of
+   when the depth limit exceeds the fuel, the budget covers the cost and every list met by the
+   decoder has fewer than 2^29 elements ([vrepr], checkable with [vrepr_check]; it constrains only
+   the words the decoder reads as pointers).  So a property of
    [spec_decode false] (layout independence, value equality) transfers to what the library
    reads, and [denote p := spec_decode false ...] is a function of the bytes alone. *)
 Theorem walk_is_spec_decode : forall (c : config) (m : list (list Z)) (dcap pcap : Z),
   cfg_strict c = true -> bytes_ok m -> segs_small m ->
-  (forall sid wa t, spec_resolve false m sid wa = Some t -> list_repr t) ->
   forall fuel rl sid s wa depth,
   seg_at m sid = Some s -> in_words s wa 1 = true ->
   Z.of_nat fuel < depth < 18446744073709551616 -> 0 <= rl ->
   spec_cost false fuel dcap pcap m sid wa <= rl ->
+  vrepr fuel pcap m sid wa ->
   (let '(r, rl1) := readPtr true m rl sid s (8 * wa) depth in
    walk c (mkFix true true true) m dcap pcap fuel rl1 r)
   = (spec_decode false fuel dcap pcap m sid wa, rl - spec_cost false fuel dcap pcap m sid wa).
